@@ -5,6 +5,9 @@
 //   jx.load <json|xml> <mem|stream> <type#> <rootkey|-> <pol> <hex bytes>  -> OK <value> | EXC:<category> | UNSUPPORTED
 //   jx.rt   <json|xml> <cfg> <type#> <rootkey|-> <value>          -> <save answer> | <load answer>   (load from the same medium, fresh target)
 //
+//   jx.val  <json|xml> <mem|stream> <vclass#> <pol> <hex bytes>      -> OK | VAL <hex path>:<codes>;.. | EXC:<category>
+//           loads a class with validators (vcatalogue in coq/JxPathModel.v); the map of the ValidationException in its own order
+//           (std::map: by path); codes: R = Required, G = Range(0, 9), one letter per message in order of arrival
 // cfg  = <mem|stream>:<utf8|utf16le|utf16be|utf32le|utf32be>:<bom 0|1>:<c | s<count> | t<count>>   (compact / pretty with spaces / tabs)
 // pol  = two letters: mismatched types policy, overflow policy (T = ThrowError, S = Skip)
 // value, one token:  n | t | f | i<decimal> | d<16 hex digits: IEEE bits> | s<hex of the UTF-8 bytes> | [v,..] | {s<hex>:v,..}
@@ -151,6 +154,13 @@ struct OptC {   // optional / smart pointer members, float, enum, vector<bool>, 
 	}
 };
 
+struct AttrNum {   // XML only: numbers of every width and a bool as attributes
+	int8_t i8 = 0; uint8_t u8 = 0; int16_t i16 = 0; uint32_t u32 = 0; int64_t i64 = 0; bool b = false; double d = 0;
+	template <class A> void Serialize(A& ar) {
+		ar << AttributeValue("i8", i8); ar << AttributeValue("u8", u8); ar << AttributeValue("i16", i16); ar << AttributeValue("u32", u32);
+		ar << AttributeValue("i64", i64); ar << AttributeValue("b", b); ar << AttributeValue("d", d);
+	}
+};
 struct AttrOnly {   // XML only: attributes and no element member (the pattern of the documentation's CPoint / CRectangle)
 	int32_t x = 0; std::string type;
 	template <class A> void Serialize(A& ar) { ar << AttributeValue("x", x); ar << AttributeValue("type", type); }
@@ -164,6 +174,7 @@ template <class T> struct is_optional_like<std::shared_ptr<T>> : std::true_type 
 template <class T> struct is_attr : std::false_type {};
 template <> struct is_attr<Attr> : std::true_type {};
 template <> struct is_attr<AttrOnly> : std::true_type {};
+template <> struct is_attr<AttrNum> : std::true_type {};
 template <class T> struct is_attr<std::vector<T>> : is_attr<T> {};
 template <class T> struct is_attr<std::map<std::string, T>> : is_attr<T> {};
 
@@ -233,6 +244,7 @@ static void fill(Inner& v, const Tree& t);
 static void fill(Mix& v, const Tree& t);
 static void fill(Attr& v, const Tree& t);
 static void fill(AttrOnly& v, const Tree& t);
+static void fill(AttrNum& v, const Tree& t);
 template <class T> static void fill(std::vector<T>& v, const Tree& t);
 template <class T> static void fill(std::optional<T>& v, const Tree& t) {
 	if (t.k == Tree::None) { v.reset(); return; }
@@ -286,6 +298,12 @@ static void fill(OptC& v, const Tree& t) {
 	fill(v.f, member(t, i++, "f")); fill(v.e, member(t, i++, "e")); fill(v.vb, member(t, i++, "vb")); fill(v.c, member(t, i++, "c"));
 	if (t.m.size() != i) throw BadValue{};
 }
+static void fill(AttrNum& v, const Tree& t) {
+	size_t i = 0;
+	fill(v.i8, member(t, i++, "i8")); fill(v.u8, member(t, i++, "u8")); fill(v.i16, member(t, i++, "i16")); fill(v.u32, member(t, i++, "u32"));
+	fill(v.i64, member(t, i++, "i64")); fill(v.b, member(t, i++, "b")); fill(v.d, member(t, i++, "d"));
+	if (t.m.size() != i) throw BadValue{};
+}
 static void fill(AttrOnly& v, const Tree& t) { fill(v.x, member(t, 0, "x")); fill(v.type, member(t, 1, "type")); if (t.m.size() != 2) throw BadValue{}; }
 
 static std::string dump(const std::nullptr_t&) { return "n"; }
@@ -335,6 +353,7 @@ static std::string dump(const Inner& v);
 static std::string dump(const Mix& v);
 static std::string dump(const Attr& v);
 static std::string dump(const AttrOnly& v);
+static std::string dump(const AttrNum& v);
 template <class T> static std::string dump(const std::map<std::string, T>& v);
 template <class T> static std::string dump(const std::vector<T>& v) {
 	std::string r = "["; bool first = true;
@@ -363,6 +382,10 @@ static std::string dump(const Attr& v) {
 static std::string dump(const OptC& v) {
 	return "{" + key("oi") + dump(v.oi) + "," + key("os") + dump(v.os) + "," + key("uv") + dump(v.uv) + "," + key("sp") + dump(v.sp) + "," +
 		key("f") + dump(v.f) + "," + key("e") + dump(v.e) + "," + key("vb") + dump(v.vb) + "," + key("c") + dump(v.c) + "}";
+}
+static std::string dump(const AttrNum& v) {
+	return "{" + key("i8") + dump(v.i8) + "," + key("u8") + dump(v.u8) + "," + key("i16") + dump(v.i16) + "," + key("u32") + dump(v.u32) + "," +
+		key("i64") + dump(v.i64) + "," + key("b") + dump(v.b) + "," + key("d") + dump(v.d) + "}";
 }
 static std::string dump(const AttrOnly& v) { return "{" + key("x") + dump(v.x) + "," + key("type") + dump(v.type) + "}"; }
 
@@ -562,6 +585,102 @@ static std::string run_arch(const std::vector<std::string>& t) {
 	case 56: return run_typed<TArchive, std::unique_ptr<std::vector<int32_t>>>(t);
 	case 57: return run_typed<TArchive, OptC>(t);
 	case 58: return run_typed<TArchive, std::vector<OptC>>(t);
+	case 59: return run_typed<TArchive, AttrNum>(t);
+	case 60: return run_typed<TArchive, std::vector<AttrNum>>(t);
+	default: return "BAD-TYPE";
+	}
+}
+
+// ------------------------------------------------------------------ validated classes (jx.val): vcatalogue in coq/JxPathModel.v
+template <class A, class V, class... TVal>
+static void attr_or_elem(A& ar, const char* key, V& v, TVal&&... val) {
+	if constexpr (can_serialize_attribute_v<A>) ar << AttributeValue(key, v, std::forward<TVal>(val)...);
+	else ar << KeyValue(key, v, std::forward<TVal>(val)...);
+}
+using R9 = Range<int32_t>;
+struct VLeafC {
+	int32_t v = 0, w = 0, a = 0;
+	template <class A> void Serialize(A& ar) {
+		ar << KeyValue("v", v, Required(), R9(0, 9));
+		ar << KeyValue("w", w, R9(0, 9));
+		attr_or_elem(ar, "a", a, R9(0, 9));
+	}
+};
+struct VMidC {
+	VLeafC leaf; std::vector<VLeafC> list; std::map<std::string, VLeafC> dict; std::vector<std::vector<VLeafC>> grid;
+	int32_t own = 0, sl = 0, ti = 0, em = 0, ea = 0;
+	template <class A> void Serialize(A& ar) {
+		ar << KeyValue("leaf", leaf);
+		ar << KeyValue("list", list, Required());
+		ar << KeyValue("dict", dict);
+		ar << KeyValue("grid", grid);
+		ar << KeyValue("own", own, R9(0, 9));
+		ar << KeyValue("a/b", sl, R9(0, 9));
+		ar << KeyValue("m~n", ti, R9(0, 9));
+		ar << KeyValue("", em, R9(0, 9));
+		ar << KeyValue(L"\u00e9", ea, R9(0, 9));
+	}
+};
+struct VTopC {
+	VMidC mid; std::vector<VMidC> mids; std::map<std::string, VMidC> named;
+	std::vector<std::map<std::string, std::vector<VLeafC>>> deep; std::vector<int32_t> nums; int32_t id = 0;
+	template <class A> void Serialize(A& ar) {
+		ar << KeyValue("mid", mid, Required());
+		ar << KeyValue("mids", mids);
+		ar << KeyValue("named", named);
+		ar << KeyValue("deep", deep);
+		ar << KeyValue("nums", nums, Required());
+		attr_or_elem(ar, "id", id, Required(), R9(0, 9));
+	}
+};
+
+template <class TArchive, class T>
+static std::string do_validate(bool stream, const std::string& pol, const std::string& bytes) {
+	T obj{};
+	try {
+		return guarded([&]() -> std::string {
+			SerializationOptions o;
+			o.mismatchedTypesPolicy = pol.size() > 0 && pol[0] == 'S' ? MismatchedTypesPolicy::Skip : MismatchedTypesPolicy::ThrowError;
+			o.overflowNumberPolicy = pol.size() > 1 && pol[1] == 'S' ? OverflowNumberPolicy::Skip : OverflowNumberPolicy::ThrowError;
+			try {
+				if (stream) { std::istringstream is(bytes, std::ios::in | std::ios::binary); LoadObject<TArchive>(obj, is, o); }
+				else LoadObject<TArchive>(obj, bytes, o);
+			}
+			catch (const ValidationException& ex) {
+				std::string out = "VAL ";
+				bool first = true;
+				for (const auto& kv : ex.GetValidationErrors()) {
+					if (!first) out += ";";
+					first = false;
+					out += vh::fmt_hex(kv.first) + ":";
+					for (const auto& msg : kv.second) {
+						if (msg == "This field is required") out += "R";
+						else if (msg == "Value must be between 0 and 9") out += "G";
+						else out += "?";
+					}
+				}
+				return out;
+			}
+			return "OK";
+		});
+	}
+	catch (const Syntax&) { throw; }
+}
+
+template <class TArchive>
+static std::string run_validate(const std::vector<std::string>& t) {
+	const bool stream = t[2] == "stream";
+	const std::string bytes = vh::parse_hex(t[5]);
+	switch (std::atoi(t[3].c_str())) {
+	case 0: return do_validate<TArchive, VLeafC>(stream, t[4], bytes);
+	case 1: return do_validate<TArchive, VMidC>(stream, t[4], bytes);
+	case 2: return do_validate<TArchive, VTopC>(stream, t[4], bytes);
+	case 3: return do_validate<TArchive, std::vector<VLeafC>>(stream, t[4], bytes);
+	case 4: return do_validate<TArchive, std::vector<VMidC>>(stream, t[4], bytes);
+	case 5: return do_validate<TArchive, std::map<std::string, VMidC>>(stream, t[4], bytes);
+	case 6: return do_validate<TArchive, std::vector<std::vector<VLeafC>>>(stream, t[4], bytes);
+	case 7: return do_validate<TArchive, std::map<std::string, std::vector<VLeafC>>>(stream, t[4], bytes);
+	case 8: return do_validate<TArchive, std::vector<VTopC>>(stream, t[4], bytes);
 	default: return "BAD-TYPE";
 	}
 }
@@ -569,6 +688,11 @@ static std::string run_arch(const std::vector<std::string>& t) {
 static std::string run_case(const std::string& line) {
 	auto t = vh::split(line);
 	if (t.size() < 6) return "BAD-CASE";
+	if (t[0] == "jx.val") {
+		if (t[1] == "json") return run_validate<JsonArchive>(t);
+		if (t[1] == "xml") return run_validate<XmlArchive>(t);
+		return "BAD-ARCH";
+	}
 	if (t[0] != "jx.save" && t[0] != "jx.load" && t[0] != "jx.rt") return "BAD-OP";
 	try {
 		if (t[1] == "json") return run_arch<JsonArchive>(t);
